@@ -47,7 +47,7 @@ func (c11) Extra() map[string]any {
 	return e
 }
 
-var c11Faults = []string{"skip-reset-w", "skip-reset-b", "skip-reset-both", "skip-backprop", "dup-update", "reorder-bw", "bad-update", "skip-update-w", "skip-update-b"}
+var c11Faults = []string{"skip-reset-w", "skip-reset-b", "skip-reset-both", "skip-backprop", "dup-update", "reorder-bw", "bad-update", "skip-update-w", "skip-update-b", "bad-call"}
 
 func (c11) Generate(r *sim.Rand, tier string) *sim.Scenario {
 	sc := &sim.Scenario{Cfg: map[string]float64{}, Data: map[string][]float64{}}
@@ -630,6 +630,25 @@ func (c11) execOne(sc *sim.Scenario) *sim.Outcome {
 			}
 			if *weights[0].Value != oldW || *weights[1].Value != oldB {
 				out.Fail("rejected-call-changed-state", "%s: a rejected Update changed a weight", where)
+				return fin()
+			}
+		}
+		if st.Tag == "bad-call" {
+			// rejected tensor-level calls with the live weights as operands, between
+			// back-propagation and update: where the most in-flight state exists
+			faultFired = true
+			salt := si*31 + sc.CfgInt("rngseed")%977
+			for k := 0; k < 2; k++ {
+				kind := badKinds[(salt+k*13)%len(badKinds)]
+				oracle, msg, _, _ := badVerdict(kind, salt+k, *weights[k].Value)
+				out.Faults["invalid-call/"+kind]++
+				if oracle != "" {
+					out.Fail(oracle, "%s: %s", where, msg)
+					return fin()
+				}
+			}
+			if *weights[0].Value != oldW || *weights[1].Value != oldB {
+				out.Fail("rejected-call-changed-state", "%s: a rejected call replaced a weight", where)
 				return fin()
 			}
 		}
